@@ -32,7 +32,8 @@ func runC21(c *mon.Ctx) {
 		"(1) round trip, in process: per constructor N values from a reflection generator (value 0 has every conditional field present and every vector non-empty; " +
 		"the others choose per flag bit, scalars from boundary+random pools, strings/bytes incl. empty and 253/254/255-byte lengths, vectors of 0..3, class fields filled " +
 		"with any implementing constructor, nesting budget 1..4); oracles: Encode ok, Decode ok into the object the type map creates, all bytes consumed, structural equality " +
-		"(nil==empty slice, doubles by bits, flag words after SetFlags), re-encode byte-identical. " +
+		"(nil==empty slice, doubles by bits, flag words after SetFlags), re-encode byte-identical, and the same value encoded into dirty reused buffers (backing array full of 0xAA, " +
+		"after Reset() and after bin.Pool Put/Get) gives the same bytes as into a fresh buffer. " +
 		"(2) hostile, in child processes: per constructor the valid encoding and K mutants (truncation at 4-byte boundaries, vector counts 2^31-1/-1/2^24/1023..1025/+-1, " +
 		"flag-word bit flips, ids replaced by sibling/other/vector/random ids, random tails, bit flips, id+random bytes); oracles: the child survives, allocation <= " +
 		"64*len + (vector headers in input+1)*PreallocateLimit*largest element + 4 MiB, and a successfully decoded mutant must itself round-trip (Encode/Decode fixed point). " +
